@@ -227,7 +227,7 @@ func VerifH_C15_verify() {
 // again): debits exactly the cost or nothing, own balance first then pools in
 // attachment order, never more than is drawable.
 //
-//verif:harness prop=C15 tier=quick replay=native require=debited,insufficient bounds="account + 2 pools with symbolic balances < 2^40; attach sequence of 0..3 operations over {attach p0, attach p1, detach p0}; cost symbolic"
+//verif:harness prop=C15 tier=quick replay=native require=debited,insufficient bounds="account + 2 pools with symbolic balances < 2^40; attach sequence of 0..3 operations over {attach p0, attach p1, attach [p1,p1] in one batch, detach p0}; cost symbolic"
 func VerifH_C15_debit() {
 	c := testutil.VerifNewContractor(types.ChainIndex{})
 	acct := acctN(0)
@@ -241,9 +241,15 @@ func VerifH_C15_debit() {
 	var attached []int
 	nOps := vapi.Int("ops", 0, 3)
 	for i := 0; i < nOps; i++ {
-		switch op := vapi.Int("op", 0, 2); op {
-		case 0, 1:
-			if err := c.AttachPools([]proto4.PoolAttachment{{Account: acct, Pool: pools[op]}}); err != nil {
+		switch op := vapi.Int("op", 0, 3); op {
+		case 0, 1, 3:
+			batch := []proto4.PoolAttachment{{Account: acct, Pool: pools[op&1]}}
+			if op == 3 {
+				// one batch naming the same link twice
+				batch = append(batch, batch[0])
+				op = 1
+			}
+			if err := c.AttachPools(batch); err != nil {
 				panic(err)
 			}
 			dup := false
